@@ -86,6 +86,9 @@ func (m *Machine) violate(v Violation, extra ...*Term) bool {
 }
 
 func (m *Machine) nondetIntrinsic(name string, args []Val) (Val, bool) {
+	if strings.HasPrefix(name, "VerifC_") {
+		return m.cIntrinsic(name, args)
+	}
 	c := m.ctx
 	sym := func(kind string, w int) Val {
 		t := m.fresh(kind, w)
